@@ -111,8 +111,10 @@ class C03(Prop):
         limit = 10000 if tier == "quick" else 10 ** 9
         repo = os.environ.get("VERIF_REPO", "/repo")
         files = sorted(glob.glob(os.path.join(repo, "example_netlists", "EDIF_netlists", "*.edf.zip")))
-        return [{"mode": "example", "example": os.path.basename(f)} for f in files
-                if 200 < os.path.getsize(f) <= limit]
+        stress = [{"mode": m, "design": r, "pre": "none"} for _, r in sorted(gen_ir.stress_recipes().items())
+                  for m in ("api-DEFAULT", "api-EDIF")]
+        return stress + [{"mode": "example", "example": os.path.basename(f)} for f in files
+                         if 200 < os.path.getsize(f) <= limit]
 
     def run(self, case):
         import spydrnet as sdn
